@@ -187,6 +187,7 @@ pub struct VerifyCall<'a> {
     pub cwd: &'a Path,
     pub clock: &'a [(i64, u32)],
     pub hash_seed: u64,
+    pub step_name: Option<String>,
 }
 
 pub enum CallResult {
@@ -203,6 +204,7 @@ pub fn verify(call: &VerifyCall) -> CallResult {
     };
     let keys: Vec<(String, PublicKey)> = call.caller_keys.clone();
     let link_dir = call.link_dir.to_string_lossy().to_string();
+    let step_name = call.step_name.clone();
     std::env::set_current_dir(call.cwd).expect("chdir work");
     seams::clock_arm(call.clock);
     let r = silenced(|| in_fresh_thread(call.hash_seed, move || -> Result<Result<Value, (String, String)>, String> {
@@ -219,7 +221,7 @@ pub fn verify(call: &VerifyCall) -> CallResult {
                 Err(_) => {}
             }
         }
-        match in_toto::verifylib::in_toto_verify(&mb, map, &link_dir, None) {
+        match in_toto::verifylib::in_toto_verify(&mb, map, &link_dir, step_name.as_deref()) {
             Ok(summary) => {
                 let v = match &summary.metadata {
                     MetadataWrapper::Link(l) => serde_json::to_value(l).unwrap_or(Value::Null),
